@@ -62,6 +62,22 @@ CLAIMS['C36'] = dict(engine='symx (E4) + rtc (E3) + structural AST contracts', c
          'GroupOp and vacancyThermoKinetics use tolerance equality by design: the equivalence-relation / hash clauses are genuinely violated there and are recorded as known findings with witnesses; any other violation is reported.',
     note='Level is "other" because the property does not hold for two types (known findings); structural patterns that are not recognised are reported undecided, never as violations.')
 
+CLAIMS['C24'] = dict(engine='rtc (E3)', category='exploration',
+    technique='run-time postconditions of StarSet construction/addition/difference against a BFS + brute-force-orbit spec (bounded stand-in); PairState algebra it rests on is proved in C23/C36',
+    text='Bounded: on every catalogue crystal, ranges 1..2 (3 where small), with and without origin states: states equal the BFS-reachable non-zero states, stars are complete orbits, '
+         'index lookups agree, s1+s2 equals generate(N1+N2) and leaves its operands unchanged, difference sets contain exactly the endpoint differences.',
+    note='Catalogue and ranges are the bound.')
+CLAIMS['C25'] = dict(engine='rtc (E3)', category='exploration',
+    technique='run-time postconditions of VectorStarSet.generate/generateouter/GFexpansion with character-formula oracle and direct assembly (bounded stand-in)',
+    text='Bounded: Gram matrix = 1, every vector star is an equivariant field on one complete star, their number equals the total invariant dimension of the stabilisers, '
+         'outer products are direct sums, the GF expansion equals the projected directly assembled matrix.',
+    note='rate/bias/bare expansions are only exercised end-to-end (C06); catalogue, N <= 2.')
+CLAIMS['C26'] = dict(engine='rtc (E3)', category='exploration',
+    technique='run-time postconditions of jumpnetwork_omega1/omega2 and of the pruning in VacancyMediated.generate against brute-force enumeration (bounded stand-in)',
+    text='Bounded: every vacancy jump with the solute fixed (resp. every exchange) inside the star set is in exactly one class; classes are closed under the space group and reversal; '
+         'dx is the vacancy displacement; the pruned omega1 list is exactly the classes touching the thermodynamic range.',
+    note='Catalogue crystals, Nthermo 1..2.')
+
 NOT_APPLICABLE = {
     'C01': 'no contract within reach: the postcondition "equals the infinite-dilution limit of the exact Markov chain, to integration accuracy" needs an independent infinite-lattice solver as oracle (differential testing, a different technique) and no SMT/CAS obligation expresses a quadrature error; the discrete mechanisms it rests on are claimed in C24-C26, its invariances in C04, its sum rules in C06',
     'C05': 'a 2-safety statement about the Loewner order of two outputs (Rayleigh monotonicity): a variational theorem of detailed balance, not an invariant of any loop or a postcondition of one call; its only executable form is a numeric comparison of two runs (testing, not contract checking)',
